@@ -251,6 +251,33 @@ Section DispProofs.
     rewrite Ez, El in H. lia.
   Qed.
 
+  (** removing key k leaves every other key's shard lookup unchanged (C18) *)
+  Lemma find_remove_other k k' (l : @lru K entry_id) : k' <> k ->
+    find keqb k' (remove keqb k l) = find keqb k' l.
+  Proof.
+    intros Hne. induction l as [|[a v] r IH]; simpl; auto.
+    destruct (keqb k a) eqn:E1; simpl.
+    - apply keqb_spec in E1. subst a. destruct (keqb k' k) eqn:E2; [apply keqb_spec in E2; contradiction | reflexivity].
+    - destruct (keqb k' a); auto.
+  Qed.
+
+  Lemma nth_upd_same {A} i (x : A) l d : i < length l -> nth i (upd i x l) d = x.
+  Proof. revert i; induction l as [|a r IH]; intros [|i] H; simpl in *; try lia; auto. apply IH; lia. Qed.
+  Lemma nth_upd_other {A} i j (x : A) l d : i <> j -> nth j (upd i x l) d = nth j l d.
+  Proof. revert i j; induction l as [|a r IH]; intros [|i] [|j] H; simpl; auto; congruence. Qed.
+
+  Theorem remove_frame d k k' : k' <> k ->
+    find keqb k' (nth (shard_index d k') (shards (remove_http_cache d k)) [])
+    = find keqb k' (nth (shard_index d k') (shards d) []).
+  Proof.
+    intros Hne. unfold Dispatcher.remove_http_cache. simpl.
+    destruct (Nat.eq_dec (shard_index d k) (shard_index d k')) as [E|E].
+    - rewrite E. destruct (Nat.lt_ge_cases (shard_index d k') (length (shards d))) as [Hl|Hl].
+      + rewrite nth_upd_same by exact Hl. apply find_remove_other. exact Hne.
+      + rewrite upd_oob by lia. reflexivity.
+    - rewrite nth_upd_other by exact E. reflexivity.
+  Qed.
+
   (** Lookup is exact (used by C06): the entry returned for [k] was created
       for [k], and it is the resident one iff [k] was resident. *)
   Lemma get_returns_own d k : DInv d ->
